@@ -166,7 +166,7 @@ Theorem C05_shared_avail_char : forall ts t s e a cap id,
   In (s, Some (cap - sum_for id (flat_map contribs_spec ts))) (avail_spec_entries ts t).
 Proof. exact shared_avail_char. Qed.
 
-(* the class of seeded change C05-5 (mutant C05-7), "skip not modified tours" in the second pass: a step takes a job out of one
+(* the class of seeded change C05-5, "skip not modified tours" in the second pass: a step takes a job out of one
    tour; the other tour, untouched, is handed over fresh-flagged with availability 1 where the tours say 3 *)
 Theorem C05_shared_stale_only_refuted :
   exists r1 r2, w_step shared_stale_only = Some [r1; r2] /\ rc_stale r2 = false /\ rc_tour r2 = wt2 /\
@@ -182,24 +182,42 @@ Theorem C05_shared_nonvacuous :
     rc_state r2 K_INTERVALS = Some (XIntervals [(0%nat, 1%nat); (2%nat, 4%nat)]).
 Proof. exact shared_step_shipped. Qed.
 
-(* finding C05-F2.  CombinedFeatureState::accept_route_state is accept_route_state_with_states over its own states: a NESTED
-   clear.  For a goal [f; Combined gs xs], GoalContext::accept_route_state on a stale tour returns it flagged fresh with the
-   field of f - written a moment before - gone.  So C05_cache_ok_accept_route_state does NOT extend to goals with a combined
-   state (ExchangeSequence::extract_jobs calls it and hands the tour over when nothing is re-inserted). *)
-Theorem C05_nested_clear_wipes : forall tour job value (f : feature tour job value) gs (xs : list (xfeature tour value)) r,
+(* GoalContext::accept_route_state over a goal that holds CombinedFeatureStates (FeatureCombinator: the shared reload feature,
+   multi-objective layers).  Since /repo 05d96ed the parts' route-level handlers run inside the caller's single clear / unset
+   bracket: the invariant "not stale -> field = recomputation" is kept for EVERY per-tour feature of the goal, inside a
+   combined state or before / after it (so C05_x_handover_fresh applies to what operators leave that call it) *)
+Theorem C05_cache_ok_goal_accept_route_state : forall tour job value (es : list (entry tour job value)) r,
+  NoDup (entry_keys tour job value es) ->
+  CacheOK tour job value (flat_fs tour job value es) r ->
+  CacheOK tour job value (flat_fs tour job value es) (goal_accept_route_state tour job value false es r).
+Proof. exact cache_ok_goal_accept_route_state. Qed.
+
+(* a goal without a combined state: GoalContext::accept_route_state IS the accept_route_state of the protocol above *)
+Theorem C05_goal_accept_route_state_flat : forall tour job value nested (gs : list (feature tour job value)) r,
+  goal_accept_route_state tour job value nested (map EOne gs) r = accept_route_state tour job value gs r.
+Proof. exact goal_accept_route_state_flat. Qed.
+
+(* finding C05-F2, the protocol BEFORE 05d96ed (nested = true; regression mutant C05-10): CombinedFeatureState::accept_route_state
+   was accept_route_state_with_states over its own states - a NESTED clear.  For a goal [f; Combined gs xs] the call returned a
+   stale tour flagged fresh with the field of f - written a moment before - gone (ExchangeSequence::extract_jobs makes that
+   call and hands the tour over when nothing is re-inserted: no transport state, cost objective 0) *)
+Theorem C05_nested_clear_prefix_refuted : forall tour job value (f : feature tour job value) gs (xs : list (xfeature tour value)) r,
   rc_stale r = true -> ~ In (f_key f) (map f_key gs) -> ~ In (f_key f) (map xf_key xs) ->
-  let r' := goal_accept_route_state tour job value [EOne f; ECombined gs xs] r in
+  let r' := goal_accept_route_state tour job value true [EOne f; ECombined gs xs] r in
   rc_stale r' = false /\ rc_tour r' = rc_tour r /\ rc_state r' (f_key f) = None.
 Proof. exact nested_clear_wipes. Qed.
 
-Theorem C05_nested_clear_refuted :
-  let r' := goal_accept_route_state _ _ _ shared_goal (mkRctx wt1 (fun _ => None) true) in
+(* the witness on the goal [transport-like total; Combined [reload intervals; shared resource]] *)
+Theorem C05_nested_clear_witness_refuted :
+  let r' := goal_accept_route_state _ _ _ true shared_goal (mkRctx wt1 (fun _ => None) true) in
   rc_stale r' = false /\ rc_state r' K_TOTAL = None /\ f_compute total_feature (rc_tour r') = Some (XTotal 6) /\
   ~ CacheOK _ _ _ [total_feature; intervals_feature] r'.
 Proof. exact nested_clear_refuted. Qed.
 
-(* a goal without a combined state: GoalContext::accept_route_state IS the accept_route_state of the protocol above, to which
-   C05_cache_ok_accept_route_state applies *)
-Theorem C05_goal_accept_route_state_flat : forall tour job value (gs : list (feature tour job value)) r,
-  goal_accept_route_state tour job value (map EOne gs) r = accept_route_state tour job value gs r.
-Proof. exact goal_accept_route_state_flat. Qed.
+(* the same call on the code as repaired: every field is there, the invariant holds *)
+Theorem C05_nested_clear_repaired :
+  let r' := goal_accept_route_state _ _ _ false shared_goal (mkRctx wt1 (fun _ => None) true) in
+  rc_stale r' = false /\ rc_state r' K_TOTAL = Some (XTotal 6) /\
+  rc_state r' K_INTERVALS = Some (XIntervals [(0%nat, 1%nat); (2%nat, 5%nat)]) /\
+  CacheOK _ _ _ (flat_fs _ _ _ shared_goal) r'.
+Proof. exact nested_clear_repaired. Qed.
